@@ -1527,3 +1527,269 @@ async fn input_of_a_signed_block_cannot_be_repointed() {
         original_spendable,
         other_spendable)); }
 }
+
+/// C05 (converse clause): a block whose arrival completes a strictly longer valid chain is adopted — also when the block that
+/// completes it is the PARENT of a block delivered earlier (known finding: only the chain ending at the arriving block is looked at)
+/// — scenario of an independent audit
+#[tokio::test]
+#[serial_test::serial]
+async fn block_whose_arrival_completes_a_longer_chain_is_adopted() {
+    #[allow(unused_imports)] use std::ops::Deref;
+    #[allow(unused_imports)] use crate::core::util::crypto::generate_keys;
+    #[allow(unused_imports)] use ahash::AHashMap;
+    use crate::core::consensus::block::BlockType;
+
+    // ---- producer: honest chain, ids 1..=4, 200 ms apart
+    let mut producer = TestManager::default();
+    producer.initialize(100, 200_000_000_000_000).await;
+    let mut wire: Vec<Vec<u8>> = vec![];
+    let mut hashes: Vec<SaitoHash> = vec![];
+    let ts;
+    {
+        let blockchain = producer.blockchain_lock.read().await;
+        let b1 = blockchain.get_latest_block().unwrap();
+        ts = b1.timestamp;
+        wire.push(b1.serialize_for_net(BlockType::Full));
+        hashes.push(b1.hash);
+    }
+    for i in 2..=4u64 {
+        let with_gt = i % 2 == 0;
+        let mut block = producer
+            .create_block(
+                hashes[(i - 2) as usize],
+                ts + 200 * (i - 1),
+                if with_gt { 0 } else { 1 },
+                0,
+                0,
+                with_gt,
+            )
+            .await;
+        block.generate().unwrap();
+        assert_eq!(block.id, i);
+        wire.push(block.serialize_for_net(BlockType::Full));
+        hashes.push(block.hash);
+        let result = producer.add_block(block).await;
+        assert!(matches!(
+            result,
+            AddBlockResult::BlockAddedSuccessfully(_, true, _)
+        ));
+    }
+
+    // ---- control: order 1,2,3,4 ends on block 4
+    {
+        let mut control = TestManager::default();
+        for i in 1..=4usize {
+            let block = Block::deserialize_from_net(&wire[i - 1]).unwrap();
+            let _ = control.add_block(block).await;
+        }
+        let blockchain = control.blockchain_lock.read().await;
+        assert_eq!(blockchain.get_latest_block_id(), 4);
+        assert_eq!(blockchain.get_latest_block_hash(), hashes[3]);
+    }
+
+    // ---- victim: order 1,2,4,3
+    let mut victim = TestManager::default();
+    for i in [1usize, 2, 4] {
+        let block = Block::deserialize_from_net(&wire[i - 1]).unwrap();
+        let _ = victim.add_block(block).await;
+    }
+    {
+        let blockchain = victim.blockchain_lock.read().await;
+        // block 4 came before its parent: tip untouched, block 4 is held by the node
+        assert_eq!(blockchain.get_latest_block_id(), 2);
+        assert_eq!(blockchain.get_latest_block_hash(), hashes[1]);
+        assert!(blockchain.get_block(&hashes[3]).is_some());
+    }
+    let block = Block::deserialize_from_net(&wire[2]).unwrap();
+    let result3 = victim.add_block(block).await;
+    assert!(matches!(
+        result3,
+        AddBlockResult::BlockAddedSuccessfully(_, true, _)
+    ));
+    // the peer sends block 4 once more: the node already holds it
+    let block = Block::deserialize_from_net(&wire[3]).unwrap();
+    let result4_again = victim.add_block(block).await;
+
+    let blockchain = victim.blockchain_lock.read().await;
+    let tip_id = blockchain.get_latest_block_id();
+    if !(tip_id == 4 && blockchain.get_latest_block_hash() == hashes[3]) { witness(format!("blocks delivered in the order 1,2,4,3: when block 3 arrived the node held the complete valid chain 1-2-3-4 \
+         (block 4 stored = {}, its parent = block 3 = {}), yet the tip is id {} and block 4 is on the longest chain = {}; \
+         delivering block 4 again returns {:?}; the property says a block whose arrival completes a strictly longer valid \
+         chain is adopted, here the tip stays one block short of it",
+        blockchain.get_block(&hashes[3]).is_some(),
+        blockchain.get_block(&hashes[3]).map(|b| b.previous_block_hash == hashes[2]).unwrap_or(false),
+        tip_id,
+        blockchain.get_block(&hashes[3]).map(|b| b.in_longest_chain).unwrap_or(false),
+        result4_again)); }
+}
+
+/// C05 (last sentence): blocks that arrive before their parent never move the tip — also when the detached stretch is longer than
+/// the node's whole chain (known finding: a chain without a shared ancestor is compared like an ordinary fork) — scenario of an independent audit
+#[tokio::test]
+#[serial_test::serial]
+async fn detached_segment_never_takes_the_tip() {
+    #[allow(unused_imports)] use std::ops::Deref;
+    #[allow(unused_imports)] use crate::core::util::crypto::generate_keys;
+    #[allow(unused_imports)] use ahash::AHashMap;
+    use crate::core::consensus::block::BlockType;
+
+    // ---- producer: honest chain, ids 1..=6, 200 ms apart (2 x heartbeat => no routing work needed)
+    let mut producer = TestManager::default();
+    producer.initialize(100, 200_000_000_000_000).await;
+    let mut wire: Vec<Vec<u8>> = vec![];
+    let mut hashes: Vec<SaitoHash> = vec![];
+    let mut burnfees: Vec<u64> = vec![];
+    let ts;
+    {
+        let blockchain = producer.blockchain_lock.read().await;
+        let b1 = blockchain.get_latest_block().unwrap();
+        ts = b1.timestamp;
+        wire.push(b1.serialize_for_net(BlockType::Full));
+        hashes.push(b1.hash);
+        burnfees.push(b1.burnfee);
+    }
+    for i in 2..=6u64 {
+        let with_gt = i % 2 == 0;
+        let mut block = producer
+            .create_block(
+                hashes[(i - 2) as usize],
+                ts + 200 * (i - 1),
+                if with_gt { 0 } else { 1 },
+                0,
+                0,
+                with_gt,
+            )
+            .await;
+        block.generate().unwrap();
+        assert_eq!(block.id, i);
+        wire.push(block.serialize_for_net(BlockType::Full));
+        hashes.push(block.hash);
+        burnfees.push(block.burnfee);
+        let result = producer.add_block(block).await;
+        assert!(
+            matches!(result, AddBlockResult::BlockAddedSuccessfully(_, true, _)),
+            "setup: producer must accept its own block {}",
+            i
+        );
+    }
+    {
+        let blockchain = producer.blockchain_lock.read().await;
+        assert_eq!(blockchain.get_latest_block_id(), 6);
+        assert_eq!(blockchain.get_latest_block_hash(), hashes[5]);
+    }
+    // burn-fee profile of this tree: the detached stretch 4..=6 is at least as heavy as 1..=2
+    let old_bf: u64 = burnfees[0] + burnfees[1];
+    let new_bf: u64 = burnfees[3] + burnfees[4] + burnfees[5];
+    assert!(
+        old_bf <= new_bf,
+        "setup: burn fee of blocks 4..=6 ({}) must not be below that of blocks 1..=2 ({})",
+        new_bf,
+        old_bf
+    );
+
+    // ---- control: in-order delivery of the same bytes is adopted block by block
+    {
+        let mut control = TestManager::default();
+        for i in 1..=6usize {
+            let block = Block::deserialize_from_net(&wire[i - 1]).unwrap();
+            let result = control.add_block(block).await;
+            assert!(
+                matches!(result, AddBlockResult::BlockAddedSuccessfully(_, true, _)),
+                "control: block {} delivered in order must be adopted",
+                i
+            );
+        }
+        let blockchain = control.blockchain_lock.read().await;
+        assert_eq!(blockchain.get_latest_block_id(), 6);
+        for i in 1..=6u64 {
+            assert_eq!(
+                blockchain
+                    .blockring
+                    .get_longest_chain_block_hash_at_block_id(i),
+                Some(hashes[(i - 1) as usize])
+            );
+        }
+    }
+
+    // ---- victim: holds 1,2 ; receives 4,5,6 ; block 3 comes last
+    let mut victim = TestManager::default();
+    let utxo_before;
+    for i in 1..=2usize {
+        let block = Block::deserialize_from_net(&wire[i - 1]).unwrap();
+        let result = victim.add_block(block).await;
+        assert!(matches!(
+            result,
+            AddBlockResult::BlockAddedSuccessfully(_, true, _)
+        ));
+    }
+    {
+        let blockchain = victim.blockchain_lock.read().await;
+        assert_eq!(blockchain.get_latest_block_id(), 2);
+        assert_eq!(blockchain.get_latest_block_hash(), hashes[1]);
+        assert!(blockchain.get_block(&hashes[2]).is_none());
+        utxo_before = blockchain.utxoset.iter().filter(|(_, v)| **v).count();
+        assert!(utxo_before >= 100, "setup: the 100 issuance outputs of block 1 are spendable");
+    }
+    // blocks 4 and 5 (block 4 arrives before its parent): tip stays where it is
+    for i in 4..=5usize {
+        let block = Block::deserialize_from_net(&wire[i - 1]).unwrap();
+        let _ = victim.add_block(block).await;
+        let blockchain = victim.blockchain_lock.read().await;
+        assert_eq!(blockchain.get_latest_block_id(), 2);
+        assert_eq!(blockchain.get_latest_block_hash(), hashes[1]);
+    }
+    // block 6
+    let block = Block::deserialize_from_net(&wire[5]).unwrap();
+    let result6 = victim.add_block(block).await;
+    let (tip_id_after_6, lc1_after_6, lc2_after_6, lc3_after_6, utxo_after_6) = {
+        let blockchain = victim.blockchain_lock.read().await;
+        (
+            blockchain.get_latest_block_id(),
+            blockchain
+                .blockring
+                .get_longest_chain_block_hash_at_block_id(1),
+            blockchain
+                .blockring
+                .get_longest_chain_block_hash_at_block_id(2),
+            blockchain
+                .blockring
+                .get_longest_chain_block_hash_at_block_id(3),
+            blockchain.utxoset.iter().filter(|(_, v)| **v).count(),
+        )
+    };
+    // block 3 finally arrives and completes the chain 1..=6
+    let block = Block::deserialize_from_net(&wire[2]).unwrap();
+    let _ = victim.add_block(block).await;
+    let (tip_id_final, lc_final): (u64, Vec<bool>) = {
+        let blockchain = victim.blockchain_lock.read().await;
+        (
+            blockchain.get_latest_block_id(),
+            (1..=6u64)
+                .map(|i| {
+                    blockchain
+                        .blockring
+                        .get_longest_chain_block_hash_at_block_id(i)
+                        == Some(hashes[(i - 1) as usize])
+                })
+                .collect(),
+        )
+    };
+
+    if !(tip_id_after_6 == 2 && lc1_after_6 == Some(hashes[0]) && lc2_after_6 == Some(hashes[1])) { witness(format!("node held blocks 1,2 and was sent blocks 4,5,6 while block 3 (parent of 4) was missing: add_block(6) returned {:?}, \
+         the tip moved from id 2 to id {} on a chain that has no block 3 (longest-chain entry at id 3 = {:?}), blocks 1 and 2 were \
+         unwound (longest-chain entries at id 1 / id 2 = {:?} / {:?}, spendable utxo entries {} before, {} after), and after block 3 arrived \
+         the tip is id {} with ids 1..=6 on the longest chain = {:?}; the property says a block that arrives before its parent \
+         neither moves the tip nor disturbs the chain index and the tip only moves to a chain that is valid block by block",
+        result6,
+        tip_id_after_6,
+        lc3_after_6.map(|h| h.to_hex()),
+        lc1_after_6.map(|h| h.to_hex()),
+        lc2_after_6.map(|h| h.to_hex()),
+        utxo_before,
+        utxo_after_6,
+        tip_id_final,
+        lc_final)); }
+    // once block 3 is there, the chain 1..=6 is complete and must be the longest chain
+    assert_eq!(tip_id_final, 6);
+    assert!(lc_final.iter().all(|x| *x));
+}
